@@ -240,7 +240,7 @@ def fam_fft_length_persistence(ctx, rng):
     kind = str(rng.choice(["freq", "single", "rotdpp", "azimuthal"]))
     cfg = gen_cfg(rng, dt, n, kind)
     variant = str(rng.choice(["n-none", "interleaved-longer-recordings", "longer-recordings-with-another-settings-object",
-                              "mixed-time-steps-longer-record-later"]))
+                              "mixed-time-steps-longer-record-later", "interleaved-call-that-is-refused"]))
     cfg["user_n"] = None
     if variant == "mixed-time-steps-longer-record-later":
         # one call holds recordings of two time steps, and a LATER one needs a longer FFT than the earlier ones:
@@ -268,6 +268,17 @@ def fam_fft_length_persistence(ctx, rng):
             if variant == "interleaved-longer-recordings":
                 long_items = [tuple(gen.recording_arrays(rng, 33000, "white", 1.0)) + (dt,)]
                 hvsrpy.process(recs_of(long_items), st)
+            elif variant == "interleaved-call-that-is-refused":
+                # in between, the same settings object is tried on recordings whose Nyquist frequency lies below the
+                # requested centre frequencies (a refusal, or whatever the code does with them) - the settings must
+                # come out of it unchanged as far as the first recordings are concerned
+                coarse_dt = 4.0 / float(np.max(cfg["fcs"]))            # Nyquist = max(fcs) / 8
+                coarse = [tuple(gen.recording_arrays(rng, 400, "white", 1.0)) + (coarse_dt,)]
+                try:
+                    hvsrpy.process(recs_of(coarse), st)
+                    ctx.count("interleaved_low_rate_call_was_processed")
+                except ValueError:
+                    ctx.count("interleaved_low_rate_call_was_refused")
             elif variant == "longer-recordings-with-another-settings-object":
                 # an unrelated call in the same session (its own, equal, settings object) must leave `st` alone
                 long_items = [tuple(gen.recording_arrays(rng, 33000, "white", 1.0)) + (dt,)]
